@@ -261,4 +261,44 @@ theorem C13_submission_window_witness :
     (Callbacks.subRun (Callbacks.withFinalAt (Callbacks.submitOrder false) 1)).handedBefore = true
     ∧ (Callbacks.subRun (Callbacks.withFinalAt (Callbacks.submitOrder false) 1)).failed = false := by decide
 
+/-! ## a pilot that ends while it is being activated -/
+
+theorem updRun_update_ge (evs : List Callbacks.UpdEv) (h : ∀ e ∈ evs, ∃ t, e = .update t) : ∀ (s : Callbacks.UpdSt),
+    s.cur ≤ (Callbacks.updRun s evs).cur ∧ ∀ t, Callbacks.UpdEv.update t ∈ evs → t ≤ (Callbacks.updRun s evs).cur := by
+  induction evs with
+  | nil => intro s; simp [Callbacks.updRun]
+  | cons e rest ih =>
+    intro s
+    obtain ⟨t0, rfl⟩ := h _ List.mem_cons_self
+    have ih' := ih (fun e he => h e (List.mem_cons_of_mem _ he)) (Callbacks.updStep s (.update t0))
+    simp only [Callbacks.updRun, List.foldl_cons] at ih' ⊢
+    have hc : (Callbacks.updStep s (.update t0)).cur = max s.cur t0 := rfl
+    refine ⟨by omega, ?_⟩
+    intro t ht
+    rcases List.mem_cons.mp ht with h1 | h1
+    · cases h1; omega
+    · exact ih'.2 t h1
+
+/-- **no notified state is lost between two threads**: with the code as it is (`Gen.pmgrUpdateInLock`:
+    `_update_pilot` reads, plans and applies within one section of the pilots lock), whatever order the lock lets the
+    two notifications in, the pilot ends at least as far as both of them say - a FAILED that arrives while the pilot
+    is being activated is not overwritten by the activation, so the callback of the task manager sees the final state -/
+theorem C13_update_atomic (c a b : Nat) (evs : List Callbacks.UpdEv)
+    (h : evs = (Callbacks.updThreads Gen.pmgrUpdateInLock a b).1 ++ (Callbacks.updThreads Gen.pmgrUpdateInLock a b).2
+       ∨ evs = (Callbacks.updThreads Gen.pmgrUpdateInLock a b).2 ++ (Callbacks.updThreads Gen.pmgrUpdateInLock a b).1) :
+    a ≤ (Callbacks.updRun ⟨c, []⟩ evs).cur ∧ b ≤ (Callbacks.updRun ⟨c, []⟩ evs).cur := by
+  have e : Gen.pmgrUpdateInLock = true := by decide
+  rw [e] at h
+  simp only [Callbacks.updThreads, if_true, List.singleton_append] at h
+  rcases h with rfl | rfl
+  · have := (updRun_update_ge [.update a, .update b] (by intro e he; simp at he; rcases he with rfl | rfl <;> exact ⟨_, rfl⟩) ⟨c, []⟩).2
+    exact ⟨this a (by simp), this b (by simp)⟩
+  · have := (updRun_update_ge [.update b, .update a] (by intro e he; simp at he; rcases he with rfl | rfl <;> exact ⟨_, rfl⟩) ⟨c, []⟩).2
+    exact ⟨this a (by simp), this b (by simp)⟩
+
+/-- the lock section matters: with the application outside it the activation (value 4), planned before the final state
+    (value 5) was applied, overwrites it -/
+theorem C13_update_witness :
+    (Callbacks.updRun ⟨2, []⟩ [.plan 0 4, .plan 1 5, .apply 1, .apply 0]).cur = 4 := by decide
+
 end RPVerif.C13
